@@ -138,6 +138,18 @@ func init() {
 						s1.Close()
 					})
 				}
+				for k := 0; k < c.PI("openers", 0); k++ {
+					k := k
+					wg.Add(1)
+					vrt.Go(fmt.Sprintf("opener%d", k), func() {
+						defer wg.Done()
+						st, err := r.cli.OpenStream()
+						if err != nil {
+							return
+						}
+						st.Write(patternBytes(2, 1, k, 3))
+					})
+				}
 				if failconn {
 					wg.Add(1)
 					vrt.Go("fault", func() {
@@ -249,6 +261,7 @@ func init() {
 			{Scenario: "mux.seq", Params: vx.P("ops", "w257,r256+1"), Bound: b(1, 2), Weight: 9},
 			{Scenario: "mux.seq", Params: vx.P("ops", "w257,r256+1", "mem", "0"), Bound: b(2, 3), Weight: 8},
 			{Scenario: "mux.seq", Params: vx.P("ops", "w257,c", "mem", "0"), Bound: b(2, 3), Weight: 6},
+			{Scenario: "mux.seq", Params: vx.P("ops", "w1", "openers", "3", "conns", "1", "mem", "0"), Bound: b(1, 2), Weight: 6},
 			{Scenario: "mux.seq", Params: vx.P("ops", "r256+256,c", "mem", "0"), Bound: b(2, 3), Weight: 6},
 			{Scenario: "mux.seq", Params: vx.P("ops", "r200,c"), Bound: b(1, 2), Weight: 6},
 			{Scenario: "mux.seq", Params: vx.P("ops", "w513,r3,c", "mem", "0"), Bound: b(1, 2), Weight: 9},
